@@ -379,9 +379,19 @@ class SymArray:
                 return acc
         raise AssertionError
 
+    def _refuse_python_int(self, value):
+        """numpy >= 2: a Python integer that the integer dtype cannot hold is refused (numpy scalars and arrays wrap instead)."""
+        if self.dtype.kind in "iu":
+            vals = value if isinstance(value, (list, tuple)) else [value]
+            info = _np.iinfo(self.dtype)
+            for v in vals:
+                if type(v) is int and not (info.min <= v <= info.max):
+                    raise OverflowError(f"Python integer {v} out of bounds for {self.dtype}")
+
     def __setitem__(self, key, value):
         if not self.flags.writeable:
             raise ValueError("assignment destination is read-only")
+        self._refuse_python_int(value)
         kind, key = self._norm_key(key)
         if kind == "mask":
             self._set_mask(key, value)
